@@ -26,6 +26,9 @@ package server
 //                     "clean.before_swap" (compaction done, segment list not yet
 //                     swapped), then released
 //   Clean             log.Clean() of the cursors partition
+//   Roll              the split check of a tick of the log's cleaner loop with the
+//                     segment age limit passed: a non-empty active segment is
+//                     rolled, which leaves an empty active segment
 //   Pause             partition.requestPause() - what the auto-pause timer of the
 //                     cursors partition does when it fires
 //   Restart(parts)    Server.Stop() + start over the same data directory, with
@@ -55,7 +58,7 @@ import (
 	proto "github.com/liftbridge-io/liftbridge/server/protocol"
 )
 
-const vC11Deadline = 20 * time.Second
+const vC11Deadline = 30 * time.Second
 
 type vC11Ent struct {
 	Off int64  `json:"off"`
@@ -75,6 +78,9 @@ type vC11State struct {
 	HW      int64     `json:"hw"`
 	Cache   []vC11CE  `json:"cache"`
 	CacheOn bool      `json:"cacheOn"`
+	SegCap  int64     `json:"segCap"`
+	Ldr     string    `json:"ldr"`    // the server that leads the cursors partition
+	OCache  []vC11CE  `json:"ocache"` // the cursor cache of the other server (two-server runs)
 	Paused  bool      `json:"paused"`
 }
 
@@ -108,11 +114,13 @@ var (
 
 type vC11Run struct {
 	t        *testing.T
-	srv      *Server
+	srv      *Server   // the server that leads the cursors partition (the calls go to it)
+	all      []*Server // every server of the run (one, or two replicating the cursors partition)
 	cfg      *Config
 	id       int
 	cap      int
 	cacheOn  bool
+	segCap   int64 // entries per segment of the cursors partition (segment size limit / entry size)
 	failWait time.Duration
 	stalled  *partition // partition whose minISR is raised (commit stalled) since a SetFail
 	minISR   int
@@ -126,15 +134,102 @@ func (r *vC11Run) stream() string { return fmt.Sprintf("b%05d", r.id) }
 
 func (r *vC11Run) part() *partition { return r.srv.metadata.GetPartition(cursorsStream, 0) }
 
+// the server that does not lead the cursors partition (two-server runs)
+func (r *vC11Run) other() *Server {
+	for _, s := range r.all {
+		if s != r.srv {
+			return s
+		}
+	}
+	return nil
+}
+
+func vC11Following(p *partition) bool {
+	p.mu.RLock()
+	defer p.mu.RUnlock()
+	return p.isFollowing
+}
+
+// two servers: r.srv = the server both agree on as the leader of the cursors
+// partition, once it runs as the leader and the other one as its follower
+func (r *vC11Run) roles(want string) {
+	if len(r.all) < 2 {
+		return
+	}
+	deadline := time.Now().Add(vC11Deadline)
+	for {
+		pa, pb := r.all[0].metadata.GetPartition(cursorsStream, 0), r.all[1].metadata.GetPartition(cursorsStream, 0)
+		if pa != nil && pb != nil {
+			la, ea := pa.GetLeader()
+			lb, eb := pb.GetLeader()
+			if la == lb && ea == eb && (want == "" || la == want) {
+				for i, p := range []*partition{pa, pb} {
+					q := []*partition{pb, pa}[i]
+					if r.all[i].config.Clustering.ServerID == la && p.IsLeader() && vC11Following(q) && len(p.GetISR()) == 2 {
+						r.srv = r.all[i]
+						return
+					}
+				}
+			}
+		}
+		if time.Now().After(deadline) {
+			r.fail("the servers did not take their roles for the cursors partition")
+		}
+		time.Sleep(200 * time.Microsecond)
+	}
+}
+
+// two servers: wait until the follower has what the leader has (log end, HW, paused
+// or not) - every step of a behaviour starts from replicas that agree
+func (r *vC11Run) sync() {
+	if len(r.all) < 2 {
+		return
+	}
+	deadline := time.Now().Add(vC11Deadline)
+	for {
+		lp, fp := r.part(), r.other().metadata.GetPartition(cursorsStream, 0)
+		if lp != nil && fp != nil && lp.IsPaused() == fp.IsPaused() {
+			if lp.IsPaused() {
+				return
+			}
+			if fp.log.NewestOffset() == lp.log.NewestOffset() && fp.log.HighWatermark() == lp.log.HighWatermark() {
+				return
+			}
+		}
+		if time.Now().After(deadline) {
+			r.fail("the follower of the cursors partition did not catch up")
+		}
+		time.Sleep(200 * time.Microsecond)
+	}
+}
+
+func vC11Cache(srv *Server, short func(string) string) []vC11CE {
+	out := []vC11CE{}
+	c := srv.cursors
+	c.mu.RLock()
+	for _, k := range c.cache.Keys() { // oldest first
+		if v, ok := c.cache.Peek(k); ok {
+			out = append(out, vC11CE{Key: short(k.(string)), Val: v.(int64)})
+		}
+	}
+	c.mu.RUnlock()
+	return out
+}
+
 func (r *vC11Run) shortKey(full string) string {
 	return strings.TrimSuffix(full, ","+r.stream()+",0")
 }
 
 func (r *vC11Run) state() vC11State {
 	p := r.part()
-	st := vC11State{Clog: []vC11Ent{}, Segs: []int64{}, Cache: []vC11CE{}, CacheOn: !r.srv.cursors.disableCache}
+	st := vC11State{Clog: []vC11Ent{}, Segs: []int64{}, Cache: []vC11CE{}, CacheOn: !r.srv.cursors.disableCache,
+		SegCap: r.segCap, OCache: []vC11CE{}}
 	if p == nil {
 		r.fail("cursors partition missing")
+	}
+	st.Ldr, _ = p.GetLeader()
+	if o := r.other(); o != nil {
+		st.OCache = vC11Cache(o, r.shortKey)
 	}
 	st.Paused = p.IsPaused()
 	if st.Paused {
@@ -193,14 +288,7 @@ func (r *vC11Run) state() vC11State {
 			st.Segs = segs
 		}
 	}
-	c := r.srv.cursors
-	c.mu.RLock()
-	for _, k := range c.cache.Keys() { // oldest first
-		if v, ok := c.cache.Peek(k); ok {
-			st.Cache = append(st.Cache, vC11CE{Key: r.shortKey(k.(string)), Val: v.(int64)})
-		}
-	}
-	c.mu.RUnlock()
+	st.Cache = vC11Cache(r.srv, r.shortKey)
 	r.lastSt = st
 	return st
 }
@@ -208,15 +296,23 @@ func (r *vC11Run) state() vC11State {
 // never leave a FetchCursor goroutine parked: Server.Stop() waits for nothing
 // here, but the goroutine would leak into the next behaviour
 func (r *vC11Run) releaseAll() {
-	if r.clean != nil {
-		close(r.clean.release)
-		<-r.clean.done
+	wait := func(done chan struct{}, what string) {
+		select {
+		case <-done:
+		case <-time.After(vC11Deadline):
+			// (no r.fail here: it would come back to this function)
+			r.t.Fatalf("INCONCLUSIVE: behaviour %d: a released %s did not return", r.id, what)
+		}
+	}
+	if c := r.clean; c != nil {
 		r.clean = nil
+		close(c.release)
+		wait(c.done, "Clean")
 	}
 	for c, p := range r.pend {
-		close(p.release)
-		<-p.done
 		delete(r.pend, c)
+		close(p.release)
+		wait(p.done, "FetchCursor")
 	}
 }
 
@@ -242,10 +338,12 @@ func vC11Err(err error) string {
 	return status.Code(err).String()
 }
 
-func (r *vC11Run) fetch(k string) (int64, error) {
+func (r *vC11Run) fetch(k string) (int64, error) { return r.fetchAt(r.srv, k) }
+
+func (r *vC11Run) fetchAt(srv *Server, k string) (int64, error) {
 	ctx, cancel := context.WithTimeout(context.Background(), vC11Deadline)
 	defer cancel()
-	resp, err := r.srv.api.FetchCursor(ctx, &client.FetchCursorRequest{Stream: r.stream(), Partition: 0, CursorId: k})
+	resp, err := srv.api.FetchCursor(ctx, &client.FetchCursorRequest{Stream: r.stream(), Partition: 0, CursorId: k})
 	if err != nil {
 		return -1, err
 	}
@@ -253,6 +351,10 @@ func (r *vC11Run) fetch(k string) (int64, error) {
 }
 
 func (r *vC11Run) waitLeader() {
+	if len(r.all) > 1 {
+		r.roles("")
+		return
+	}
 	deadline := time.Now().Add(vC11Deadline)
 	for {
 		p := r.part()
@@ -269,11 +371,24 @@ func (r *vC11Run) waitLeader() {
 }
 
 func (r *vC11Run) tune() {
-	cache, _ := lru.New(r.cap)
-	r.srv.cursors.mu.Lock()
-	r.srv.cursors.cache = cache
-	r.srv.cursors.disableCache = !r.cacheOn
-	r.srv.cursors.mu.Unlock()
+	for _, s := range r.all {
+		cache, _ := lru.New(r.cap)
+		s.cursors.mu.Lock()
+		s.cursors.cache = cache
+		s.cursors.disableCache = !r.cacheOn
+		s.cursors.mu.Unlock()
+	}
+}
+
+// the clean / split check of the follower's copy of the cursors log (two-server runs):
+// the replicas are cleaned at the same moments so that their logs stay the same
+func (r *vC11Run) followerLog() commitlog.CommitLog {
+	if o := r.other(); o != nil {
+		if p := o.metadata.GetPartition(cursorsStream, 0); p != nil && !p.IsPaused() {
+			return p.log
+		}
+	}
+	return nil
 }
 
 func (r *vC11Run) step(step map[string]interface{}) vC11Event {
@@ -396,7 +511,12 @@ func (r *vC11Run) step(step map[string]interface{}) vC11Event {
 			}
 			cancel()
 			if !returned {
-				err = <-errC
+				select {
+				case err = <-errC:
+				case <-time.After(vC11Deadline):
+					r.unstall()
+					r.fail("cancelled SetCursor did not return")
+				}
 			}
 			obs.Err = vC11Err(err)
 			obs.Ret = vInt(step, "v")
@@ -417,6 +537,13 @@ func (r *vC11Run) step(step map[string]interface{}) vC11Event {
 			select {
 			case <-c.reached:
 				r.clean = c
+				// (two servers: the follower's copy is cleaned now, as a whole: it decides
+				// on the same log and HW as the leader's clean just did)
+				if fl := r.followerLog(); fl != nil {
+					if err := fl.Clean(); err != nil {
+						r.fail("clean of the follower's log: " + err.Error())
+					}
+				}
 			case <-c.done:
 				vC11Mu.Lock()
 				vC11ArmClean = nil
@@ -449,6 +576,65 @@ func (r *vC11Run) step(step map[string]interface{}) vC11Event {
 				obs.A, a = "Skip", "Skip"
 			} else if err := p.log.Clean(); err != nil {
 				obs.Err = err.Error()
+			} else if fl := r.followerLog(); fl != nil {
+				if err := fl.Clean(); err != nil {
+					r.fail("clean of the follower's log: " + err.Error())
+				}
+			}
+		case "Handover":
+			// the controller elects the other in-sync replica as the leader of the
+			// cursors partition (metadataAPI.electNewPartitionLeader, Raft operation
+			// applied on both servers); both servers keep running
+			p := r.part()
+			if len(r.all) < 2 || p.IsPaused() || r.clean != nil || len(r.pend) > 0 ||
+				p.log.HighWatermark() != p.log.NewestOffset() {
+				obs.A, a = "Skip", "Skip"
+				return
+			}
+			r.unstall()
+			var ms *Server
+			for deadline := time.Now().Add(vC11Deadline); ms == nil; time.Sleep(time.Millisecond) {
+				for _, s := range r.all {
+					if s.IsLeader() {
+						ms = s
+					}
+				}
+				if ms == nil && time.Now().After(deadline) {
+					r.fail("no metadata leader")
+				}
+			}
+			mp := ms.metadata.GetPartition(cursorsStream, 0)
+			leader, epoch := mp.GetLeader()
+			ctx, cancel := context.WithTimeout(context.Background(), vC11Deadline)
+			st := ms.metadata.electNewPartitionLeader(ctx, mp, leader, epoch)
+			cancel()
+			if st != nil {
+				r.fail("leader election of the cursors partition: " + st.Message())
+			}
+			r.roles(r.other().config.Clustering.ServerID)
+		case "FetchOther":
+			if len(r.all) < 2 {
+				obs.A, a = "Skip", "Skip"
+				return
+			}
+			ret, err := r.fetchAt(r.other(), vStr(step, "k"))
+			obs.Ret, obs.Err = ret, vC11Err(err)
+			if err != nil {
+				obs.Ret = -1
+			}
+		case "Roll":
+			// the split check of a cleaner-loop tick, with the segment age limit passed
+			p := r.part()
+			if p.IsPaused() {
+				obs.A, a = "Skip", "Skip"
+				return
+			}
+			if _, err := commitlog.VerifSplitCheck(p.log, true); err != nil {
+				obs.Err = err.Error()
+			} else if fl := r.followerLog(); fl != nil {
+				if _, err := commitlog.VerifSplitCheck(fl, true); err != nil {
+					r.fail("split check of the follower's log: " + err.Error())
+				}
 			}
 		case "Pause":
 			if r.clean != nil || r.part().IsPaused() {
@@ -467,8 +653,14 @@ func (r *vC11Run) step(step map[string]interface{}) vC11Event {
 				}
 				time.Sleep(time.Millisecond)
 			}
+			for o := r.other(); err == nil && o != nil && !o.metadata.GetPartition(cursorsStream, 0).IsPaused(); {
+				if time.Now().After(deadline) {
+					r.fail("the follower's partition did not pause")
+				}
+				time.Sleep(time.Millisecond)
+			}
 		case "Restart":
-			if len(r.pend) > 0 || r.clean != nil {
+			if len(r.pend) > 0 || r.clean != nil || len(r.all) > 1 {
 				obs.A, a = "Skip", "Skip"
 				return
 			}
@@ -478,12 +670,14 @@ func (r *vC11Run) step(step map[string]interface{}) vC11Event {
 			args["v"] = vIntDef(step, "parts", 1)
 			r.srv.Stop()
 			r.srv = vOneNodeServer(r.t, r.cfg)
+			r.all = []*Server{r.srv}
 			r.waitLeader()
 			r.tune()
 		default:
 			r.t.Fatalf("unknown action %q", a)
 		}
 	}()
+	r.sync()
 	return vC11Event{T: r.id, A: a, Args: args, St: r.state(), Obs: obs}
 }
 
@@ -526,11 +720,52 @@ func TestVerifCursors(t *testing.T) {
 	cfg.CursorsStream.Partitions = 1
 	cfg.CursorsStream.AutoPauseTime = 0
 	cfg.Streams.CleanerInterval = 24 * time.Hour
+	two := os.Getenv("VERIF_C11_SERVERS") == "2"
+	tuneRepl := func(c *Config) {
+		// two servers replicate the cursors partition: nothing spontaneous (no ISR
+		// shrink, no leader report under load), the HW reaches the follower quickly
+		c.CursorsStream.Partitions = 1
+		c.CursorsStream.AutoPauseTime = 0
+		c.Streams.CleanerInterval = 24 * time.Hour
+		c.Clustering.ReplicaMaxLagTime = time.Hour
+		c.Clustering.ReplicaMaxLeaderTimeout = time.Hour
+		c.Clustering.ReplicaMaxIdleWait = 20 * time.Millisecond
+		c.Clustering.ReplicaFetchTimeout = 5 * time.Second
+		// the first server is the only Raft voter (the second one applies the metadata
+		// log as a non-voter): the metadata leadership cannot move under machine load
+		c.Clustering.RaftMaxQuorumSize = 1
+	}
+	if two {
+		tuneRepl(cfg)
+	}
 	srv := vOneNodeServer(t, cfg)
-	run := &vC11Run{t: t, srv: srv, cfg: cfg, id: 0, cap: 2, cacheOn: true, pend: map[string]*vC11Pending{},
+	run := &vC11Run{t: t, srv: srv, all: []*Server{srv}, cfg: cfg, id: 0, cap: 2, cacheOn: true, pend: map[string]*vC11Pending{},
 		failWait: 100 * time.Millisecond}
-	defer func() { run.srv.Stop() }()
+	defer func() {
+		// (Server.Stop() can block for ever on a subscription loop that is stuck)
+		done := make(chan struct{})
+		go func() {
+			for _, s := range run.all {
+				s.Stop()
+			}
+			close(done)
+		}()
+		select {
+		case <-done:
+		case <-time.After(vC11Deadline):
+			fmt.Fprintln(os.Stderr, "c11: the servers do not stop; giving up")
+		}
+	}()
 	run.waitLeader()
+	if two {
+		cfgB := vJoinConfig(t, "b", cfg)
+		tuneRepl(cfgB)
+		srvB, err := RunServerWithConfig(cfgB)
+		if err != nil {
+			t.Fatalf("INCONCLUSIVE: second server did not start: %v", err)
+		}
+		run.all = append(run.all, srvB)
+	}
 
 	// size of one stored cursor entry (fixed-width names, values 1..127)
 	ctx, cancel := context.WithTimeout(context.Background(), vC11Deadline)
@@ -553,16 +788,44 @@ func TestVerifCursors(t *testing.T) {
 		run.unstall()
 		// fresh cursors stream with segments of segCap entries
 		run.cfg.CursorsStream.Partitions = 1
-		run.srv.config.CursorsStream.Partitions = 1
-		run.srv.config.Streams.SegmentMaxBytes = vIntDef(b.Cfg, "segCap", 2) * entSize
+		run.segCap = vIntDef(b.Cfg, "segCap", 2)
+		// the metadata leader (two servers: under load the Raft leadership may just be moving)
+		ms := run.srv
+		for deadline := time.Now().Add(vC11Deadline); len(run.all) > 1; time.Sleep(5 * time.Millisecond) {
+			if run.all[0].IsLeader() || run.all[1].IsLeader() {
+				break
+			}
+			if time.Now().After(deadline) {
+				t.Fatalf("INCONCLUSIVE: behaviour %d: no metadata leader", b.ID)
+			}
+		}
+		for _, s := range run.all {
+			s.config.CursorsStream.Partitions = 1
+			if len(run.all) > 1 {
+				s.config.CursorsStream.ReplicationFactor = int32(len(run.all))
+			}
+			s.config.Streams.SegmentMaxBytes = run.segCap * entSize
+			// number of goroutines a compaction scans the keys with (must not matter)
+			s.config.Streams.CompactMaxGoroutines = int(vIntDef(b.Cfg, "g", 10))
+			if s.IsLeader() {
+				ms = s
+			}
+		}
 		ctx, cancel := context.WithTimeout(context.Background(), vC11Deadline)
-		st := run.srv.metadata.DeleteStream(ctx, &proto.DeleteStreamOp{Stream: cursorsStream})
+		st := ms.metadata.DeleteStream(ctx, &proto.DeleteStreamOp{Stream: cursorsStream})
 		cancel()
 		if st != nil {
 			t.Fatalf("INCONCLUSIVE: delete cursors stream: %v", st.Err())
 		}
-		if err := run.srv.cursors.Initialize(); err != nil {
-			t.Fatalf("INCONCLUSIVE: re-create cursors stream: %v", err)
+		// (two servers: the second one may not have joined the cluster yet)
+		for deadline := time.Now().Add(3 * vC11Deadline); ; time.Sleep(20 * time.Millisecond) {
+			err := ms.cursors.Initialize()
+			if err == nil {
+				break
+			}
+			if len(run.all) < 2 || time.Now().After(deadline) {
+				t.Fatalf("INCONCLUSIVE: re-create cursors stream: %v", err)
+			}
 		}
 		run.waitLeader()
 		run.tune()
